@@ -40,6 +40,15 @@ def showONode (o : Option ZSetA.Node) : String := match o with | none => "nil" |
 def obsBuckets : List Bytes := [[97], [97, 98], [98], [], [97, 124, 98]]
 def obsKeys : List Bytes := [[97], [97, 98], [97, 98, 99], [98], [98, 97], [107], [255]]
 
+/-- `needle` occurs in `l` as a contiguous block -/
+def hasInfix (l needle : List UInt8) : Bool :=
+  match l with
+  | [] => needle.isEmpty
+  | _ :: t => needle.isPrefixOf l || hasInfix t needle
+
+/-- the invalid expression of the fixed set -/
+def rxBad (i : Nat) : Bool := i == 4 || i ≥ 10
+
 /-- regular expressions of the fixed set (index ↦ matcher on the key remainder); 4 is invalid -/
 def rxMatch (i : Nat) (rem : Bytes) : Bool :=
   match i with
@@ -47,6 +56,11 @@ def rxMatch (i : Nat) (rem : Bytes) : Bool :=
   | 1 => rem.head? == some 98               -- "^b"
   | 2 => rem.getLast? == some 99            -- "c$"
   | 3 => rem.isEmpty                        -- "^$"
+  | 5 => rem == [98]                        -- "^b$"
+  | 6 => rem == [97, 98]                    -- "^ab$"
+  | 7 => rem.contains 98                    -- "b"
+  | 8 => hasInfix rem [97, 98]              -- "ab"
+  | 9 => rem.head? == some 97 && rem.getLast? == some 99 && rem.length ≥ 2 && !rem.contains 10  -- "^a.*c$"
   | _ => false
 
 def obs (s : State) (now : Nat) : String :=
@@ -229,9 +243,9 @@ def stepModel (st : St) (cmd : String) (impl : String) : St × Verdict :=
     let pre := B 2
     let rx := N 3
     let o := if t.closed then Outcome.err
-      else if rx ≥ 4 then Outcome.err
+      else if rxBad rx then Outcome.err
       else prefixScan s (B 1) pre (I 4) (I 5) (N 6) (fun k => rxMatch rx (k.drop pre.length))
-    (rd (if t.closed || rx ≥ 4 then [] else prefixFetched s (B 1) pre (I 4) (I 5) (N 6) (fun k => rxMatch rx (k.drop pre.length))),
+    (rd (if t.closed || rxBad rx then [] else prefixFetched s (B 1) pre (I 4) (I 5) (N 6) (fun k => rxMatch rx (k.drop pre.length))),
       v (showOutcome showRecs o) s!"psearch/{c}/{rx}")
   -- ---------------- lists
   | "rpush" => let (t', o) := txRPush t (B 1) (B 2) (parseList (a 3)) (N 4) false; (setTx t', v (unitOut o) s!"rpush/{c}")
